@@ -32,6 +32,53 @@ def member_names(f, n):
     return [m.get('m') for m in f.walk(n) if m['k'] == 'MemberExpr']
 
 
+# pugixml.hpp (1.13): formatting flag bits - a trusted table of the back end's constants
+PUGI_FLAGS = {'format_indent': 0x01, 'format_write_bom': 0x02, 'format_raw': 0x04, 'format_no_declaration': 0x08, 'format_no_escapes': 0x10,
+              'format_save_file_text': 0x20, 'format_indent_attributes': 0x40, 'format_no_empty_element_tags': 0x80, 'format_default': 0x01}
+
+
+def xml_flag_paths(prog, f):
+    """evaluates the flags argument of every xml_document::save() call in the Finalize visitor for each choice of the options
+    enableFormat / writeBom (the options are free booleans; everything else is opaque)"""
+    from bsv.dtab import TOP, Interp, Model
+
+    class M(Model):
+        def initial_store(self, it, key):
+            if isinstance(key, str) and key.startswith('G:'):
+                return PUGI_FLAGS.get(key.rsplit('::', 1)[-1], TOP)
+            return TOP
+
+        def global_value(self, it, q):
+            return PUGI_FLAGS.get(q.rsplit('::', 1)[-1], TOP)
+
+        def member_value(self, it, fr, n, base):
+            if n.get('m') in ('enableFormat', 'writeBom'):
+                lab = 'OPT:' + n['m']
+                prev = [d for l, d in it.path.guards if l == lab]
+                return 1 if (prev[0] if prev else it.choose(lab)) else 0
+            return TOP
+
+        def primitive(self, it, fr, n, callee, depth):
+            obj, args = it.call_args(fr, n)
+            vals = [it.ev(fr, a, depth) for a in args]
+            if callee.get('n') == 'save' and callee['q'].startswith('pugi::'):
+                it.act('SAVE', vals[2] if len(vals) > 2 else TOP, 'basic_ostream' in callee.get('id', ''))
+            return TOP
+
+    it = Interp(prog, M(), max_depth=0, max_paths=64)
+
+    def init(it_, fr):
+        for p in f.params:
+            fr.env[p['d']] = TOP
+    out = []
+    for p in it.run(f, init):
+        g = dict((l[4:], d) for l, d in p.guards if isinstance(l, str) and l.startswith('OPT:'))
+        for a in p.actions:
+            if a[0] == 'SAVE' and isinstance(a[1], int):
+                out.append({'flags': a[1], 'stream': a[2], 'enableFormat': g.get('enableFormat'), 'writeBom': g.get('writeBom')})
+    return out
+
+
 def run(prog, rep):
     rep.rule('R8.1', 'every rapidjson Accept() result is consumed', floor=4)
     rep.rule('R8.2', 'ParseStream over AutoUTFInputStream names AutoUTF as source encoding', floor=1)
@@ -146,23 +193,26 @@ def run(prog, rep):
                         rep.ok('R8.4', 'XML|save(stream, ..., ToPugiUtfType(encoding))|%s' % f.loc(s))
                     else:
                         rep.finding('R8.4', 'XML|stream encoding', f.loc(s), 'XML stream output is not saved with ToPugiUtfType(streamOptions.encoding)', func=f.id)
-                    boms = [x for x in f.walk() if x['k'] == 'ConditionalOperator' and 'writeBom' in member_names(f, x['c'][0])]
-                    okb = False
-                    for b in boms:
-                        t, e = strip(b['c'][1]), strip(b['c'][2])
-                        okb = okb or (t.get('n') == 'format_write_bom' and e.get('cv') == 0)
-                    if okb:
-                        rep.ok('R8.4', 'XML|format_write_bom iff writeBom|%s' % f.loc(s))
+                    outs = xml_flag_paths(prog, f)
+                    wb = [PUGI_FLAGS['format_write_bom']]
+                    if not wb or not outs:
+                        raise AnalysisBroken('R8.4: cannot evaluate the pugixml save flags in %s' % f.loc())
+                    bad = [o for o in outs if o['stream'] and ((o['flags'] & wb[0]) != 0) != bool(o['writeBom'])]
+                    if not bad and any(o['stream'] for o in outs):
+                        rep.ok('R8.4', 'XML|format_write_bom iff writeBom|%s' % f.loc(s), sample={'paths': len(outs), 'format_write_bom': wb[0]})
                     else:
-                        rep.finding('R8.4', 'XML|bom flag', f.loc(s), 'XML stream output: format_write_bom is not set exactly when streamOptions.writeBom', func=f.id)
+                        rep.finding('R8.4', 'XML|bom flag', f.loc(s), 'XML stream output: format_write_bom is not set exactly when streamOptions.writeBom '
+                                    '(evaluated flags: %s)' % [(o['writeBom'], o['flags']) for o in outs if o['stream']][:4], func=f.id)
                 else:
                     e = strip(enc) if enc else None
                     if e is not None and e.get('n') == 'encoding_utf8':
                         rep.ok('R8.4', 'XML|string output is UTF-8|%s' % f.loc(s))
                     else:
                         rep.finding('R8.4', 'XML|string encoding', f.loc(s), 'XML string output is not saved as UTF-8', func=f.id)
-            fmts = [x for x in f.walk() if x['k'] == 'ConditionalOperator' and 'enableFormat' in member_names(f, x['c'][0])]
-            okf = any(strip(x['c'][1]).get('n') == 'format_indent' and strip(x['c'][2]).get('n') == 'format_raw' for x in fmts)
+            outs = xml_flag_paths(prog, f)
+            fi, fr_ = [PUGI_FLAGS['format_indent']], [PUGI_FLAGS['format_raw']]
+            okf = bool(outs) and bool(fi) and bool(fr_) and all((((o['flags'] & fi[0]) != 0) == bool(o['enableFormat'])) and
+                                                                   (((o['flags'] & fr_[0]) != 0) == (not o['enableFormat'])) for o in outs)
             if okf:
                 rep.ok('R8.5', 'XML|format_indent iff enableFormat|%s' % f.loc())
             else:
